@@ -115,6 +115,20 @@ Theorem C14_base_units_idempotent_partial r s a f ex dest fu B exu fb exb :
   root_of r dest = Ok (fb, B, exb) →
   ∃ f' ex', base_units_in r s dest = Ok (f', ex', dest).
 Proof. exact (base_units_idem_units r s a f ex dest fu B exu fb exb). Qed.
+(** the replacement table solves the rule equations: for the single form [new], the replaced root
+    unit is [new] to the inverse power; for [new : old] with the corrected exponents, substituting
+    the root expansion of [new] into the replacement of [old] gives [old] back *)
+Theorem C14_rule_single_solves qk r new o rep :
+  rule_entry qk r new None = Ok (o, rep) →
+  ∃ fn exn v, root_of r {[ new := 1%Qc ]} = Ok (fn, {[ o := v ]}, exn) ∧ rep = {[ new := (1 / v)%Qc ]}
+              ∧ (v ≠ 0%Qc → uc_pow {[ o := v ]} (1 / v)%Qc = {[ o := 1%Qc ]}).
+Proof. exact (rule_entry_single_solves qk r new o rep). Qed.
+Theorem C14_rule_inversion_solves_repaired r new o o' rep :
+  rule_entry repaired r new (Some o) = Ok (o', rep) →
+  ∃ fn Bn exn e,
+    root_of r {[ new := 1%Qc ]} = Ok (fn, Bn, exn) ∧ o' = o ∧ rep !! new = Some e
+    ∧ (UC.wf Bn → Bn !! new = None → uc_mul (uc_pow Bn e) (delete new rep) = {[ o := 1%Qc ]}).
+Proof. exact (rule_entry_solves r new o o' rep). Qed.
 (** F11: the coded inversion of [gee : meter] gives [meter = gee·second^(1/2)], which has not the
     dimensionality of meter, and conversions under the system raise; [-value/value_old] repairs it *)
 Theorem C14_rule_inversion_refuted :
